@@ -104,7 +104,7 @@ var props = map[string]propCfg{
 	}, RaceFiles: ioRace},
 	"C05": {Pkg: "checks/c05", Level: "exploration", Passes: []pass{
 		{Name: "plain", Shards: 16, TimeoutS: 900, TZ: []string{"UTC"}},
-		{Name: "asan", Tier: "thorough", Asan: true, Shards: 16, TimeoutS: 1800, TZ: []string{"UTC"}},
+		{Name: "asan", Tier: "thorough", Asan: true, Shards: 16, TimeoutS: 1800, TZ: []string{"UTC"}, Env: []string{"VERIF_LIGHT=1"}},
 	}, RaceFiles: ioRace},
 	"C06": {Pkg: "checks/c06", Level: "exploration", Passes: []pass{
 		{Name: "plain", Shards: 16, TimeoutS: 900, TZ: []string{"UTC", "Asia/Shanghai"}},
